@@ -706,6 +706,8 @@ class TorConfig:
                 try:
                     yield self.save()
                 except TorProtocolError as e:
+                    # Tor refused: that port is not configured
+                    self.SocksPort.remove(socks_config)
                     extra = ''
                     if socks_config.startswith('unix:'):
                         # XXX so why don't we check this for the
